@@ -340,7 +340,7 @@ PROPS = {
     },
     'C19': {
         'units': ['unitB', 'unitD'],
-        'obligations': ['B.', 'D.mem.parse', 'D.table.parse', 'D.global.parse', 'D.import.parse', 'D.export.parse', 'D.mem.emit', 'D.table.emit', 'D.global.emit', 'D.import.emit', 'D.export.emit'],
+        'obligations': ['B.', 'D.mem.parse', 'D.table.parse', 'D.global.parse', 'D.import.parse', 'D.export.parse', 'D.mem.emit', 'D.table.emit', 'D.global.emit', 'D.import.emit', 'D.export.emit', 'D.data.parse', 'D.data.reserve', 'D.data.count', 'D.data.emit_data_count', 'D.elem.parse.body', 'D.elem.emit.body'],
         'assumptions': ['A-deps', 'A-std', 'A-iter', 'A-limits', 'A-extract', 'A-verus'],
         'rules': 'R1 R2 R4 R6 R9; panic mode: absent',
         'claimed': [
